@@ -855,15 +855,26 @@ func genCmap(t *rapid.T, n int, o Opts, noLiga bool, c *Case, fl *filler) (cmap.
 	}
 	lang := uint16(0)
 	if isWide || rapid.IntRange(0, 4).Draw(t, "force12") == 0 {
+		// under the Unicode key, the Windows key or both (the same bytes:
+		// the writer stores them once, wherever the two keys stand in the
+		// sorted list of encoding records)
 		b := f12.Encode(lang)
-		tbl[cmap.Key{PlatformID: 0, EncodingID: 4}] = b
-		tbl[cmap.Key{PlatformID: 3, EncodingID: 10}] = b
+		which := rapid.SampledFrom([]int{3, 3, 3, 1, 2}).Draw(t, "keys12")
+		if which&1 != 0 {
+			tbl[cmap.Key{PlatformID: 0, EncodingID: 4}] = b
+		}
+		if which&2 != 0 {
+			tbl[cmap.Key{PlatformID: 3, EncodingID: 10}] = b
+		}
 		c.label("cmap-format12")
 	}
 	if !isWide || rapid.Bool().Draw(t, "alsoBMP") {
 		b := f4.Encode(lang)
-		tbl[cmap.Key{PlatformID: 0, EncodingID: 3}] = b
-		if rapid.Bool().Draw(t, "winBMP") {
+		which := rapid.SampledFrom([]int{3, 3, 1, 1, 2}).Draw(t, "keys4")
+		if which&1 != 0 {
+			tbl[cmap.Key{PlatformID: 0, EncodingID: 3}] = b
+		}
+		if which&2 != 0 {
 			tbl[cmap.Key{PlatformID: 3, EncodingID: 1}] = b
 		}
 		c.label("cmap-format4")
@@ -882,6 +893,25 @@ func genCmap(t *rapid.T, n int, o Opts, noLiga bool, c *Case, fl *filler) (cmap.
 			tbl[cmap.Key{PlatformID: 1, EncodingID: 0, Language: l}] = mac.Encode(l)
 		}
 		c.label(fmt.Sprintf("cmap-mac-%d", len(langs)))
+	}
+	if rapid.IntRange(0, 7).Draw(t, "interleavedSharing") == 0 && len(f4) > 0 {
+		// the layout many real fonts have: one BMP subtable under the Unicode
+		// and the Windows key with a Macintosh subtable standing between them
+		// in the sorted list of records, and a full-repertoire subtable last
+		a := f4.Encode(lang)
+		mac := cmap.Format4{}
+		for r, g := range m {
+			if r < 0x80 {
+				mac[uint16(r)] = g
+			}
+		}
+		tbl = cmap.Table{
+			{PlatformID: 0, EncodingID: 3}:  a,
+			{PlatformID: 1, EncodingID: 0}:  mac.Encode(0),
+			{PlatformID: 3, EncodingID: 1}:  a,
+			{PlatformID: 3, EncodingID: 10}: f12.Encode(lang),
+		}
+		c.label("cmap-interleaved-sharing")
 	}
 	if n <= 256 && rapid.IntRange(0, 5).Draw(t, "byteEncodingKeys") == 0 {
 		// a byte encoding table (format 0) under a key that is not the
